@@ -2,9 +2,11 @@ package main
 
 import (
 	"fmt"
+	"io"
 	"math/rand"
 	"net/http"
 	"net/http/httptest"
+	"net/url"
 	"runtime"
 	"sync"
 	"sync/atomic"
@@ -31,6 +33,8 @@ type breakerSubject struct {
 	trans     []string
 	checked   string
 	tick      time.Duration
+	hookSrv   *httptest.Server
+	hookBad   atomic.Int64
 }
 
 func newBreakerSubject(cfg M, next http.Handler) *breakerSubject {
@@ -43,11 +47,45 @@ func newBreakerSubject(cfg M, next http.Handler) *breakerSubject {
 		s.gate = newGateHandler()
 		next = s.gate
 	}
+	var fbh http.Handler = fb
+	switch strOr(cfg, "fbkind", "default") {
+	case "response":
+		rf, err := cbreaker.NewResponseFallback(cbreaker.Response{StatusCode: 418, ContentType: "application/x-fallback", Body: []byte("fallback body")})
+		if err != nil {
+			fatal("NewResponseFallback: %v", err)
+		}
+		fbh = http.HandlerFunc(func(w http.ResponseWriter, r *http.Request) { s.fbCount.Add(1); rf.ServeHTTP(w, r) })
+	case "redirect", "redirect_preserve":
+		rd, err := cbreaker.NewRedirectFallback(cbreaker.Redirect{URL: "http://fallback.example.com/base", PreservePath: strOr(cfg, "fbkind", "") == "redirect_preserve"})
+		if err != nil {
+			fatal("NewRedirectFallback: %v", err)
+		}
+		fbh = http.HandlerFunc(func(w http.ResponseWriter, r *http.Request) { s.fbCount.Add(1); rd.ServeHTTP(w, r) })
+	}
+	var onTripped cbreaker.SideEffect = &s.onTripped
+	if boolOr(cfg, "webhook", false) {
+		// the on-tripped side effect is a real webhook to a local server that counts the deliveries
+		s.hookSrv = httptest.NewServer(http.HandlerFunc(func(w http.ResponseWriter, r *http.Request) {
+			b, _ := io.ReadAll(r.Body)
+			if r.Method == http.MethodPost && r.Header.Get("X-Hook") == "1" && string(b) == "a=b" &&
+				r.Header.Get("Content-Type") == "application/x-www-form-urlencoded" {
+				s.onTripped.n.Add(1)
+			} else {
+				s.hookBad.Add(1)
+			}
+		}))
+		wh, err := cbreaker.NewWebhookSideEffect(cbreaker.Webhook{URL: s.hookSrv.URL, Method: http.MethodPost,
+			Headers: http.Header{"X-Hook": []string{"1"}}, Form: url.Values{"a": []string{"b"}}})
+		if err != nil {
+			fatal("NewWebhookSideEffect: %v", err)
+		}
+		onTripped = wh
+	}
 	cb, err := cbreaker.New(next, str(cfg, "expr"),
 		cbreaker.FallbackDuration(time.Duration(num(cfg, "fallback"))*s.tick),
 		cbreaker.RecoveryDuration(time.Duration(num(cfg, "recovery"))*s.tick),
 		cbreaker.CheckPeriod(time.Duration(num(cfg, "check"))*s.tick),
-		cbreaker.Fallback(fb), cbreaker.OnTripped(&s.onTripped), cbreaker.OnStandby(&s.onStandby))
+		cbreaker.Fallback(fbh), cbreaker.OnTripped(onTripped), cbreaker.OnStandby(&s.onStandby))
 	if err != nil {
 		fatal("cbreaker.New(%q): %v", str(cfg, "expr"), err)
 	}
@@ -144,8 +182,21 @@ func runBreaker(sc Scenario, tr *Trace, seed int64) {
 			} else {
 				state[id] = "fb"
 			}
+			fbok := true
+			if !adm {
+				switch strOr(sc.Cfg, "fbkind", "default") {
+				case "default":
+					fbok = res.status == 503
+				case "response":
+					fbok = res.status == 418 && res.ctype == "application/x-fallback" && res.body == "fallback body"
+				case "redirect":
+					fbok = res.status == 302 && res.location == "http://fallback.example.com/base"
+				case "redirect_preserve":
+					fbok = res.status == 302 && res.location == "http://fallback.example.com/base/"
+				}
+			}
 			tr.Emit(M{"e": "Start", "r": id, "admitted": adm, "entered": adm, "status": res.status,
-				"fallback": s.fbCount.Load() > fb0, "trans": trans})
+				"fallback": s.fbCount.Load() > fb0, "fbok": fbok, "trans": trans})
 		case "finish":
 			if state[id] != "run" {
 				continue
@@ -166,7 +217,10 @@ func runBreaker(sc Scenario, tr *Trace, seed int64) {
 	}
 	// quiescence of the traced part: count side effects before the clean-up completions below
 	t, sb := s.waitEffects(nT, nS)
-	tr.Emit(M{"e": "Effects", "tripped": t, "standby": sb})
+	tr.Emit(M{"e": "Effects", "tripped": t, "standby": sb, "hookbad": s.hookBad.Load()})
+	if s.hookSrv != nil {
+		s.hookSrv.Close()
+	}
 	for id, v := range state {
 		if v == "run" {
 			s.drv.finish(id, "status:200")
